@@ -623,7 +623,11 @@ theorem sys_runFrame' (p : Prog) (hh : Hist) (s : St) (f : Frame)
     split
     · exact typical _ [.flush] (SysOld.of_eq rfl) rfl (fun c hc => by simpa [frameCmds, allCmds, St.push, St.emit] using hc) rfl
         (nocmd _ (by simp [frameCmds])) hwq
-    · rename_i a _
+    · rename_i t _
+      exact typical _ [.runnerStart t .plain, .exclActs sys (i + 1)] (SysOld.of_eq rfl) rfl
+        (fun c hc => by simpa [frameCmds, allCmds, St.push] using hc) rfl
+        (nocmd _ (by intro g hg; simp at hg; rcases hg with rfl | rfl <;> simp [frameCmds])) hwq
+    · rename_i a _ _
       split
       · refine typical _ [.flush, .exclActs sys (i + 1)] (SysOld.of_eq (by simp [St.push])) (by simp [St.push]) ?_ (by simp [St.push])
           (nocmd _ (by intro g hg; simp at hg; rcases hg with rfl | rfl <;> simp [frameCmds])) (by simp [St.push]; exact pairs_append _ _ hwq (pairs_enqueue s a))
